@@ -617,9 +617,14 @@ def case_sens(c, rng, model, base_key):
     def m_stmt():
         sts = list(model.statements)
         idxs = [i for i, s in enumerate(sts) if isinstance(s, Assignment)]
-        i = rng.choice(idxs)
-        sts[i] = Assignment.create(sts[i].symbol, sts[i].expression + Expr.integer(1))
-        return model.replace(statements=Statements(sts))
+        rng.shuffle(idxs)
+        for i in idxs:
+            new = Assignment.create(sts[i].symbol, sts[i].expression + Expr.integer(1))
+            # an expression that absorbs the addition (zoo, nan) is not a content change
+            if new != sts[i] and str(new.expression) != str(sts[i].expression):
+                sts[i] = new
+                return model.replace(statements=Statements(sts))
+        raise ValueError("no statement whose expression changes when 1 is added")
     muts.append(("one statement", m_stmt))
 
     def m_rv():
